@@ -58,7 +58,7 @@ def main(argv=None) -> int:
         return mod.replay(ctx, json.load(open(a.replay)))
     try:
         mod.run(ctx)
-    except core.CheckFailure as e:
+    except Exception as e:  # noqa: BLE001 - CheckFailure and anything unexpected
         # fail closed: an infrastructure failure means the property is not shown to hold
         traceback.print_exc()
         ctx.add_violation(core.Violation(
